@@ -29,6 +29,7 @@ import Driver.InterTDH
 import Driver.ArrXH
 import Driver.CrawlCH
 import Driver.OWidenH
+import Driver.DisH
 
 /-!
   crabdrv : line-protocol driver.  Reads cases on stdin, one per line
@@ -65,6 +66,7 @@ def dispatch (comp op : String) (args res : List Sexp) : Verdict :=
   | "inter" => handleInter3 op args res
   | "zw" => handleZw op args res
   | "ow" => handleOw op args res
+  | "dis" => handleDis op args res
   | "xdom" => handleXDom op args res
   | "rprog" => handleRprog op args res
   | "idom" => handleIDom op args res
